@@ -492,9 +492,9 @@ theorem closeB_iff_aux (tol : Rat) (v w : Val) : Val.closeB tol v w = true ↔ V
   cases v with
   | sc a => cases w with
     | sc b => simpa [Val.closeB, Val.Close] using hsc a b
-    | vec ys => simp [Val.closeB, Val.Close]
+    | vec ys => simp [Val.closeB, Val.Close, List.all_eq_true, hsc]
   | vec xs => cases w with
-    | sc b => simp [Val.closeB, Val.Close]
+    | sc b => simp [Val.closeB, Val.Close, List.all_eq_true, hsc]
     | vec ys =>
       simp only [Val.closeB, Val.Close]
       induction xs generalizing ys with
